@@ -1,9 +1,9 @@
 package main
 
 import (
-	"sort"
 	"go/token"
 	"go/types"
+	"sort"
 	"strings"
 
 	"golang.org/x/tools/go/ssa"
@@ -124,7 +124,9 @@ func condWaitStates(c *Ctx, fn *ssa.Function) map[ssa.Instruction]StateSet {
 		return false
 	}
 	pkg := fn.Pkg
-	pf := &PF{N: 32, DeepVisit: true, InScope: func(f *ssa.Function) bool { return (rootFn(f).Pkg == pkg || c.inModule(f)) && f.Blocks != nil && f != fn }}
+	pf := &PF{N: 32, DeepVisit: true, InScope: func(f *ssa.Function) bool {
+		return (rootFn(f).Pkg == pkg || c.inModule(f)) && f.Blocks != nil && f != fn
+	}}
 	pf.Instr = func(f *ssa.Function, in ssa.Instruction, q int) (StateSet, bool) {
 		switch x := in.(type) {
 		case *ssa.UnOp:
